@@ -17,7 +17,7 @@ def run(R):
               "stress, recorded only. Compared pairs: gamut membership of targets with margin, range_of_solutions ends (x 1/s), "
               "fitted intensities where unique (x 1/s), predicted captures and errors (x c), default and high-accuracy solver; the "
               "exact model's range on both twins must agree exactly. Non-trivial: lb > 0 or an active bound / out-of-gamut target.")
-    HIGH = dict(solver="CLARABEL", tol_gap_abs=1e-12, tol_gap_rel=1e-12, tol_feas=1e-12)
+    HIGH = dict(solver="CLARABEL", tol_gap_abs=1e-10, tol_gap_rel=1e-10, tol_feas=1e-10, max_iter=500)
     stress = []
     for si in range(nsys):
         k = "s%d" % si
@@ -98,6 +98,10 @@ def run(R):
         for mode, kw in (("default", {}), ("high", HIGH)):
             (sa, oa) = call(lsq_linear, A, B, lb=lb, ub=ub, baseline=base, return_pred=True, **kw)
             (sb, ob) = call(lsq_linear, A2, B2, lb=lb2, ub=ub2, baseline=base2, return_pred=True, **kw)
+            if mode == "high" and "runtime" in (sa, sb):
+                # the high-accuracy settings are the harness's choice: a solver that reports non-convergence with them does not
+                # deliver "a high-accuracy solver"; dreye reports it (RuntimeError) instead of returning a non-solution
+                R.count("high-accuracy-solver-did-not-converge"); continue
             if sa != "ok" or sb != "ok":
                 if asserted:
                     R.failB(dict(c, impl_error=[oa, ob]), "fit raised: %s / %s" % (oa, ob), sig + ":fit:raises:" + mode)
